@@ -26,7 +26,7 @@ func init() {
 			"termination is observed by the per-run watchdog (a hang makes the run inconclusive, with the case id in the worker's current-case file)",
 			"the prefix relation is event-for-event on (delta, canonical message bytes); a missing end-of-track at the end of the last track is a legitimate prefix",
 		},
-		Require: []string{"truncations", "truncation_results_ok_value", "truncation_results_error", "mutants", "random_strings", "targeted", "alloc_measurements", "reads_with_log"},
+		Require: []string{"truncations", "truncation_results_ok_value", "truncation_results_error", "mutants", "random_strings", "targeted", "alloc_measurements", "reads_with_log", "big_payload_truncations"},
 		UsesCur: true,
 		Run:     runC05,
 	})
@@ -261,6 +261,75 @@ func runC05(c *mon.Ctx) {
 			c.Sample("truncated-file", map[string]any{"bytes": mon.Hex(b), "offsets": fmt.Sprintf("0..%d", len(b)-1)})
 		}
 	})
+
+	// ---- truncations of files with payloads above the chunked-read threshold (4 KiB) and above 16 KiB
+	c.Each("big-truncations", c.N(24, 400), func(i int64, r *mon.Rand) {
+		n := r.Pick(4097, 4100, 5000, 8192, 8193, 16383, 16384, 16385, 20000)
+		p := r.Bytes7(n)
+		var big []byte
+		switch i % 3 {
+		case 0:
+			big = ref.Meta(byte(r.Pick(0x01, 0x05, 0x7F, 0x60)), p)
+		case 1:
+			big = append(append([]byte{0xF0}, p...), 0xF7)
+		default:
+			big = append([]byte{0xF7}, p...)
+		}
+		tr := []ref.EncEv{{Ev: ref.Ev{Delta: 3, Msg: []byte{0x90, 1, 1}}}, {Ev: ref.Ev{Delta: 0, Msg: big}}, {Ev: ref.Ev{Delta: 9, Msg: []byte{0x80, 1, 0}}}, {Ev: ref.Ev{Delta: 0, Msg: ref.EOT}}}
+		f := &ref.EncFile{Format: 1, Division: 96, NTracks: -1, Tracks: [][]ref.EncEv{{{Ev: ref.Ev{Delta: 0, Msg: ref.EOT}}}, tr}}
+		if i%2 == 0 { // the big event in the last track or in the first of two
+			f.Tracks[0], f.Tracks[1] = f.Tracks[1], f.Tracks[0]
+		}
+		b := f.Bytes(nil)
+		truth := f.Truth()
+		c.CurPayload(b[:64])
+		step := 1
+		if c.Quick() {
+			step = 5
+		}
+		for cut := 0; cut < len(b); cut += step {
+			if c.Quick() && cut > 80 && cut < len(b)-80 && (cut%4096 > 40 && cut%4096 < 4056) && r.P(9, 10) {
+				continue // quick: dense near the ends and near 4 KiB multiples, sampled elsewhere
+			}
+			in := map[string]any{"file": fmt.Sprintf("%d bytes, one event with a payload of %d bytes", len(b), n), "truncated_at": cut}
+			s, err, panicked := k.read(b[:cut], "big-truncation", in, cut%64 == 0)
+			c.Count("truncations", 1)
+			c.Count("big_payload_truncations", 1)
+			c.Eval(1)
+			if panicked || err != nil || s == nil {
+				if err != nil {
+					c.Count("truncation_results_error", 1)
+				}
+				continue
+			}
+			c.Count("truncation_results_ok_value", 1)
+			if d := prefixOK(truth, fromLib(s), 2); d != "" {
+				c.Violation("truncation-fabricates", fmt.Sprintf("file of %d bytes (payload of %d bytes) truncated at %d reads without error but %s", len(b), n, cut, d), in, nil, nil)
+			}
+		}
+		c.DistinctBytes([]byte(fmt.Sprint("big", i, n)))
+	})
+
+	// ---- structural counts (thorough): millions of empty unknown chunks in front of a track
+	if c.Thorough() {
+		c.Each("many-chunks", 2, func(i int64, _ *mon.Rand) {
+			n := []int{200_000, 6_500_000}[i]
+			b := make([]byte, 0, 14+8*n+20)
+			b = append(b, hdr(1, 1, 96)...)
+			for k := 0; k < n; k++ {
+				b = append(b, 'X', 'F', 'I', 'L', 0, 0, 0, 0)
+			}
+			b = append(b, trk(0, 0x90, 1, 1, 5, 0x80, 1, 0, 0, 0xFF, 0x2F, 0)...)
+			c.CurPayload([]byte(fmt.Sprintf("%d empty unknown chunks followed by one track", n)))
+			in := fmt.Sprintf("%d empty unknown chunks (8 bytes each) followed by one track", n)
+			s, err, p := k.read(b, "many-chunks", in, true)
+			if !p && (err != nil || len(s.Tracks) != 1 || len(s.Tracks[0]) != 3) {
+				c.Violation("many-chunks", fmt.Sprintf("file with %d unknown chunks before its track: %v", n, err), in, "1 track with 3 events", fmt.Sprint(err))
+			}
+			c.Count("targeted", 1)
+			c.DistinctBytes([]byte(in))
+		})
+	}
 
 	// ---- grammar-mutated files
 	c.Each("mutants", c.N(100_000, 4_000_000), func(i int64, r *mon.Rand) {
